@@ -754,7 +754,12 @@ def check_c10(prop, tier, replay, selftest):
             return None
         ok = selftest_corrupt("Trace_Meta", out, corrupt)
         print("SELFTEST %s: %s" % (prop, "binding demonstrated" if ok else "FAILED"))
-        return 0 if ok else 2
+        r1 = tlc_mc("ParserState", "ParserState_cache.cfg", workers=6, timeout=600)
+        print("SELFTEST C10 model: a formula order that is memoised across a sort %s the conditions to the wrong statements" %
+              ("attaches" if r1["violation"] and "Faithful" in r1["violation"] else "DOES NOT attach"))
+        return 0 if ok and r1["violation"] else 2
+    # the parser's state machine: dictionary = inverse of the name list, builds faithful after any facts / sorts / earlier builds
+    res.add_mc(require_mc(tlc_mc("ParserState", "ParserState.cfg", workers=6, timeout=600)))
     res.add_mc(require_mc(tlc_mc("MC_Perm", "MC_Perm.cfg", workers=8, timeout=600)))
     res.add_mc(require_mc(tlc_mc("MC_Perm", "MC_Perm_n3s.cfg", workers=12, timeout=1200)))
     tr = tlc_trace("Trace_Meta", out, min_per_shard=5)
@@ -776,6 +781,9 @@ def check_c10(prop, tier, replay, selftest):
             slim = dict(rec, pres=[rec["pres"][0]] + ([rec["pres"][pi]] if pi else []))
             res.violation("%s_%s_%s" % (rec["id"], json.dumps(t[4])[:40], t[5]), {"property": prop, "component": "meta", "record": slim, "mismatch": t},
                           "C10 %s presentation %s: %s  vs first: %s" % (json.dumps(t[4]), t[5], rec["pres"][pi]["text"][:160], rec["pres"][0]["text"][:160]))
+        elif t[0] == "DRIFT":
+            res.drift.append({"record": t[2], "what": t[3]})
+    res.extra["drift_count"] = len(res.drift)
     res.evaluations = npres
     res.distinct = seen
     res.rule = ("records = base ADFs (2-5 statements with oracle; 20-32 statements without) each shown in 3-4 presentations: injective renamings "
